@@ -2,7 +2,7 @@
 
 use crate::async_vfs::{AsyncFileSystem, AsyncVfsPath, SeekAndRead};
 use crate::error::VfsErrorKind;
-use crate::{VfsMetadata, VfsResult};
+use crate::{VfsFileType, VfsMetadata, VfsResult};
 
 use async_std::io::Write;
 use async_trait::async_trait;
@@ -123,6 +123,12 @@ impl AsyncFileSystem for AsyncOverlayFS {
     }
 
     async fn create_dir(&self, path: &str) -> VfsResult<()> {
+        if self.exists(path).await? {
+            return match self.metadata(path).await?.file_type {
+                VfsFileType::File => Err(VfsErrorKind::FileExists.into()),
+                VfsFileType::Directory => Err(VfsErrorKind::DirectoryExists.into()),
+            };
+        }
         self.ensure_has_parent(path).await?;
         self.write_path(path)?.create_dir().await?;
         let whiteout_path = self.whiteout_path(path)?;
@@ -137,6 +143,9 @@ impl AsyncFileSystem for AsyncOverlayFS {
     }
 
     async fn create_file(&self, path: &str) -> VfsResult<Box<dyn Write + Send + Unpin>> {
+        if self.exists(path).await? && self.metadata(path).await?.file_type != VfsFileType::File {
+            return Err(VfsErrorKind::Other("Not a file".into()).into());
+        }
         self.ensure_has_parent(path).await?;
         let result = self.write_path(path)?.create_file().await?;
         let whiteout_path = self.whiteout_path(path)?;
